@@ -66,6 +66,7 @@ RUNS = {
         {"name": "K6-pool", "mode": "kpool", "budget": (10000, 100000), "nontrivial": r"x", "keyfn": "generic"},
         {"name": "K6-mux", "mode": "kmux", "budget": (1500, 15000), "nontrivial": r".", "keyfn": "generic"},
         {"name": "K6-fid-in-flight", "mode": "kmuxfid", "budget": (60, 2000), "nontrivial": r"formed=1", "keyfn": "generic"},
+        {"name": "K6-failed-send-leaves-nothing", "mode": "kstale", "budget": (40, 1500), "nontrivial": r"formed=1", "keyfn": "generic"},
     ],
     "C06": [
         {"name": "K7-tags", "mode": "k7tags", "budget": (120, 3000), "nontrivial": r"missing=0", "keyfn": "generic"},
